@@ -20,6 +20,7 @@ mod c13;
 mod c14;
 mod c15;
 mod c16;
+mod c17;
 mod c19;
 mod prog;
 
@@ -130,6 +131,7 @@ fn main() {
         "c15" => c15::run(&ctx),
         #[cfg(not(feature = "inproc"))]
         "c16" => c16::run(&ctx),
+        "c17" => c17::run(&ctx),
         "c19" => c19::run(&ctx),
         "c19dump" => c19::dump(&ctx),
         _ => {
